@@ -1684,6 +1684,65 @@ class D2Collinear(D2Space):
         return out
 
 
+class D2Ties(D2Space):
+    """Exact scalings (unit/precision a power of two) with coordinates exactly half way between grid points, both signs and
+    both parities: every coordinate of the file must be the saved value rounded half away from zero -- ONE rule for polygon
+    vertices, path start points and later vertices, label and reference origins and repetition vectors, so that elements at
+    the same position decode to the same grid point."""
+    name = "d2.ties"
+    SCALES = [("1e-6/0.5e-6", "1e-06", "5e-07", 2.0), ("1/1", "1", "1", 1.0), ("1/0.5", "1", "0.5", 2.0), ("2^-10/2^-20", repr(2.0 ** -10), repr(2.0 ** -20), 1024.0)]
+    POS = [(0.5, 2.5), (-1.5, -3.5), (2.5, -1.5), (-0.5, 1.5), (3.5, 0.5), (-2.5, -0.5)]   # grid units: odd and even halves of both signs
+    KINDS = ("polygon", "polygon.general", "flexpath", "robustpath", "label", "reference", "all")
+
+    def __init__(self):
+        self.groups = [(sc, k) for sc in self.SCALES for k in self.KINDS]
+
+    def ngroups(self, tier):
+        return len(self.groups)
+
+    def describe(self, tier):
+        return ("unit/precision in {1e-6/0.5e-6, 1/1, 1/0.5, 2^-10/2^-20} (exact scalings 2, 1, 2, 1024) x {polygon (rectangle-like and general), simple FlexPath, simple "
+                "RobustPath (start point on a tie, later vertices on and off ties), label, reference, all of them at one position} at %d positions whose grid coordinates are "
+                "k+0.5 with both signs and parities, repetition vectors on ties x 3 option sets (no S_BOUNDING_BOX: a box of unrounded geometry is not a box of the file)") % len(self.POS)
+
+    def cases(self, g, tier):
+        (sname, unit, prec, sc), kind = self.groups[g]
+        out = []
+        U = lambda gv: fnum(gv / sc)                     # grid value -> user-unit double (exact: sc is a power of two)
+        PT = lambda q: "%s,%s" % (U(q[0]), U(q[1]))
+        R = lambda gv: rha(gv)
+        for pi, (gx, gy) in enumerate(self.POS):
+            cmds = ["lib TIES %s %s" % (unit, prec), "cell A"]
+            hints = {"rpath_points": []}
+            kinds = self.KINDS[:-1] if kind == "all" else (kind,)
+            for kd in kinds:
+                if kd == "polygon":
+                    cmds.append("poly 1 0 " + " ".join(PT(q) for q in [(gx, gy), (gx + 5.5, gy), (gx + 5.5, gy + 4.5), (gx, gy + 4.5)]))
+                    cmds.append("rep rect 2 2 %s %s" % (U(7.5), U(8.5)))
+                elif kd == "polygon.general":
+                    cmds.append("poly 2 0 " + " ".join(PT(q) for q in [(gx, gy), (gx + 6, gy + 1), (gx + 2.5, gy + 7)]))
+                    cmds.append("rep ex 3 %s %s %s" % (PT((1.5, -2.5)), PT((-3.5, 0.5)), PT((4.5, 4.5))))
+                elif kd == "flexpath":
+                    pts = [(gx, gy), (gx + 5.5, gy), (gx + 5.5, gy + 4.5), (gx + 9, gy + 4.5)]
+                    cmds.append("fpath 1 1 %d %s 1 3 0 %s 0 ext %s %s" % (len(pts), " ".join(PT(q) for q in pts), U(2.5), U(1.5), U(0.5)))
+                    cmds.append("rep exx 2 %s %s" % (U(2.5), U(6.5)))
+                elif kd == "robustpath":
+                    pts = [(gx, gy), (gx + 5.5, gy), (gx + 5.5, gy + 4.5)]
+                    cmds.append("rpath 1 1 %d %s 1 4 0 %s 0 flush 0 0" % (len(pts), " ".join(PT(q) for q in pts), U(3.0)))
+                    hints["rpath_points"].append([(R(x), R(y)) for x, y in pts])
+                elif kd == "label":
+                    cmds.append("label 5 0 %s 7469" % PT((gx, gy)))
+                    cmds.append("rep reg 2 2 %s %s %s %s" % (U(2.5), U(-0.5), U(-1.5), U(3.5)))
+                elif kd == "reference":
+                    cmds.append("ref B %s 0 1 0" % PT((gx, gy)))
+                    cmds.append("rep exy 2 %s %s" % (U(-1.5), U(2.5)))
+            cmds += ["cell B", "poly 0 0 %s" % " ".join(PT(q) for q in [(0, 0), (4, 0), (4, 2)])]
+            for lvl, fl in ((0, 0x00), (6, 0x3B), (6, 0x30 | 0x40)):
+                out.append({"cmds": cmds, "level": lvl, "flags": fl, "tol": 0, "hints": hints,
+                            "label": {"scaling": sname, "element": kind, "position": "%g,%g" % (gx, gy), "level": lvl, "flags": fl}})
+        return out
+
+
 class D2History(D2Space):
     """Save histories on ONE Library object: every written file must be true about itself."""
     name = "d2.history"
@@ -1739,7 +1798,7 @@ class D2History(D2Space):
         return out
 
 
-D2_SPACES = [D2Shapes, D2Collinear, D2Elements, D2PropCounts, D2Transforms, D2SortedReps, D2History, D2Options]
+D2_SPACES = [D2Shapes, D2Collinear, D2Ties, D2Elements, D2PropCounts, D2Transforms, D2SortedReps, D2History, D2Options]
 
 
 # ---------------------------------------------------------------------------- direction 2: model of the saved library
